@@ -700,7 +700,7 @@ class SAMIParser(HTMLParser):
             self.sami += f"</{closing_tag}>"
 
     def handle_entityref(self, name):
-        if name in ['gt', 'lt']:
+        if name in ['gt', 'lt', 'amp']:
             self.sami += f'&{name};'
         else:
             try:
@@ -712,9 +712,9 @@ class SAMIParser(HTMLParser):
 
     def handle_charref(self, name):
         if name[0] == 'x':
-            self.sami += chr(int(name[1:], 16))
+            self.sami += escape(chr(int(name[1:], 16)))
         else:
-            self.sami += chr(int(name))
+            self.sami += escape(chr(int(name)))
 
     # override the parser's handling of data
     def handle_data(self, data):
